@@ -26,7 +26,7 @@ ASSUMPTIONS = ["a sender that is itself a logger may see 1 or 2 ACK frames per r
                "a repeated handshake on an already accepted connection must not be acknowledged again (the current code ignores it)",
                "a not-writable report for a sender does not excuse its acknowledgement; its self-addressed markers of that round are dropped legitimately and ignored"]
 REQUIRE = {"acks_expected": 300, "never_acked_frames": 100, "logger_copies_expected": 100,
-           "acks_owed_to_not_writable_sender": 30}
+           "acks_owed_to_not_writable_sender": 30, "loggers_died_silently": 20}
 MARK = 7777
 CASE_TIMEOUT = 120
 
@@ -73,6 +73,15 @@ def gen(rng: random.Random, tier):
         elif r < 0.87 and len(live) > 1:
             steps.append(["disc", L])
             live.remove(L)
+        elif r < 0.90 and L in logs and len(live) > 1:
+            # a logger dies silently (reset); the manager finds out while fanning out the copies of somebody else's
+            # acknowledgement - every other logger must still get its copy
+            steps += [["drain"], ["close", L, "rst"], ["await_closed", L]]   # nothing of L is left queued
+            live.remove(L)
+            others = [x for x in live]
+            M2 = rng.choice(others)
+            steps.append([rng.choice(["sub", "unsub", "pause", "resume"]), M2, rng.choice(types)])
+            steps.append(["round", {"only": others, "seed": rng.getrandbits(30)}])
         elif r < 0.93 and extra < 3:
             N = f"x{extra}"
             extra += 1
@@ -132,6 +141,10 @@ def judge(sc: Scenario, case):
     never = 0
     ignored = set()    # markers published in a round whose snapshot reported the (non-logger) publisher not writable
     for rec in sc.rounds:
+        for G in list(loggers):
+            if sc.cl[G].closed_round is not None and sc.cl[G].closed_round <= rec["n"]:
+                loggers.remove(G)     # closed by the harness before this round: nothing can be observed there any more
+                C["loggers_died_silently"] = C.get("loggers_died_silently", 0) + 1
         for L, d, out in rec["frames"]:
             k = d["kind"]
             cs = sc.cl[L]
